@@ -138,8 +138,8 @@ fn read_lines(text: &str, z: Option<f64>, t: Option<f64>) -> Vec<[f64; 4]> {
 
 /// Spellings of input values for operations without a domain: signs, sexagesimal with a zero
 /// degree field, hemisphere letters in both cases, exponents
-const FREE_VALUES: [&str; 16] = [
-    "-0:30:00", "-0:15:36", "0:30:00S", "0:15:36w", "-1:30:36", "12:30W", "12:30:15.5n", "1e3", "-0.5", "+2.5", ".5", "5.", "-0", "0:0:36",
+const FREE_VALUES: [&str; 20] = [
+    "-0:30:00", "-0:15:36", "0:30:00S", "0:15:36w", "0:30:00s", "55:30s", "12:30:15.5e", "7W", "-1:30:36", "12:30W", "12:30:15.5n", "1e3", "-0.5", "+2.5", ".5", "5.", "-0", "0:0:36",
     "1:30", "-12:00:00.25E",
 ];
 
